@@ -494,7 +494,7 @@ class Report:
             fn()
         except AnchorMissing as e:
             self.anchor_missing(rule, e)
-        except (KeyError, IndexError, TypeError, AttributeError) as e:
+        except (KeyError, IndexError, TypeError, AttributeError, StopIteration) as e:
             import traceback
 
             tb = traceback.extract_tb(sys.exc_info()[2])[-1]
